@@ -110,7 +110,7 @@ def _compare(ctx, stream, version, ops, connects, token, key):
 FAULTS = ["drop", "error", "garbage", "close", "refuse", "hang", "cancel"]
 # faults that hit the RE-authentication of an exchange (V3): the connection is dropped first so that the
 # exchange has to handshake again, and the handshake is then not answered / answered with garbage
-HS_FAULTS = ["hs_drop", "hs_error", "hs_partial"]
+HS_FAULTS = ["hs_drop", "hs_error", "hs_partial", "hs_late"]
 
 
 def recovery(ctx, rng, version, faults):
@@ -151,7 +151,7 @@ def recovery(ctx, rng, version, faults):
                     if not tr.closing:
                         tr.peer_close(0.0)
                 await asyncio.sleep(0.01)
-                director.set({"hs_drop": "silent", "hs_error": "error", "hs_partial": "partial"}[f], "ok")
+                director.set({"hs_drop": "silent", "hs_error": "error", "hs_partial": "partial", "hs_late": "verylate"}[f], "ok")
             if f == "cancel":
                 director.set("ok", "silent")
                 task = asyncio.ensure_future(ac.refresh())
